@@ -25,8 +25,8 @@ RULE = ("random walks on {whitespace, keep-chain, include-header, pdb-output, ap
 ASSUMPTIONS = ["'byte-identical' is judged on the numeric token text of the PQR atom lines (fixed columns or tokens)",
                "a terminus counts as 'actually neutralised' when the atoms of the two outputs show the lost amine "
                "hydrogen (N) or the gained HO (C)"]
-MIN = {"quick": {"pairs_compared": 350, "dropwater_pairs": 15, "neutral_pairs": 22, "ffout_pairs": 60, "dropwater_colliding_numbering": 4, "neutral_pairs_pka_route": 3, "ligand_walks": 8},
-       "thorough": {"pairs_compared": 12000, "dropwater_pairs": 800, "neutral_pairs": 700, "ffout_pairs": 2000, "dropwater_colliding_numbering": 400, "neutral_pairs_pka_route": 400, "ligand_walks": 400}}
+MIN = {"quick": {"pairs_compared": 350, "dropwater_pairs": 15, "neutral_pairs": 22, "ffout_pairs": 60, "dropwater_colliding_numbering": 4, "neutral_pairs_pka_route": 3, "ligand_walks": 8, "dropwater_pairs_one_letter_rna": 1},
+       "thorough": {"pairs_compared": 12000, "dropwater_pairs": 800, "neutral_pairs": 700, "ffout_pairs": 2000, "dropwater_colliding_numbering": 400, "neutral_pairs_pka_route": 400, "ligand_walks": 400, "dropwater_pairs_one_letter_rna": 100}}
 FLAGS = ["whitespace", "keepchain", "header", "pdbout", "apbs", "ffout"]
 
 
@@ -47,6 +47,10 @@ def cases(tier, seed):
     for i in range(nd):
         out.append({"kind": "dropwater", "w": "frag" if i % 3 == 0 else "synth", "seed": seed * 13001 + i,
                     "ff": common.FFS[i % 6], "p": {"maxlen": 6, "waters": [2, 4, 7], "na_prob": 0.1}})
+    # nucleic strands with waters (RNA under both naming styles - RA.. and the one-letter v3 names - and DNA)
+    for i in range(18 if tier == "quick" else 600):
+        out.append({"kind": "dropwater", "w": "synth", "seed": seed * 13003 + i, "ff": ["AMBER", "CHARMM", "TYL06"][i % 3],
+                    "nucleic": True, "p": {"na_prob": 1.0, "waters": [2, 4], "nchains": 1 + i % 2}})
     nn = 48 if tier == "quick" else 4000
     for i in range(nn):
         if i % 4 == 3:
@@ -294,6 +298,10 @@ def run_dropwater(spec, res):
         return
     res.count("pairs_compared")
     res.count("dropwater_pairs")
+    if spec.get("nucleic"):
+        res.count("dropwater_pairs_nucleic")
+        if any(isinstance(it, dict) and it["resn"] in ("A", "C", "G", "U") for it in m["items"]):
+            res.count("dropwater_pairs_one_letter_rna")
     res.nt("dropwater", spec["ff"], tuple(extra), spec["seed"])
     res.cell("dropwater", spec["ff"], tuple(extra))
     if ra.pqr_text != rb.pqr_text:
